@@ -65,6 +65,7 @@ class AbstractMujocoEnv[
 
         data = state.sim_state.replace(ctrl=action)
         data, _ = lax.scan(step_once, data, None, length=self.frame_skip)
+        data = mjx.rne_postconstraint(self.model, data)
 
         return eqx.tree_at(
             lambda s: (s.sim_state, s.t), state, (data, state.t + self.dt)
